@@ -42,6 +42,8 @@ func (c *Ctx) regionInit(name string, gen int) string {
 			sort_ = "Int"
 		} else if name == "$wfault" {
 			sort_ = "Bool"
+		} else if name == "$tpos" {
+			sort_ = "Int"
 		} else {
 			panic(fmt.Sprintf("internal: unknown region %s", name))
 		}
@@ -65,6 +67,9 @@ func (c *Ctx) regionSort(name string) string {
 	if name == "$wfault" {
 		return "Bool"
 	}
+	if name == "$tpos" {
+		return "Int"
+	}
 	return c.regions[name]
 }
 
@@ -84,7 +89,12 @@ var genCounter int
 func (c *Ctx) havocAll(s *State) {
 	old := c.alloc(s)
 	ghost := c.region(s, "$wfault")
-	defer func() { s.cells["$wfault"] = Val{S: ghost} }()
+	tp := c.region(s, "$tpos")
+	defer func() {
+		s.cells["$wfault"] = Val{S: ghost}
+		// unknown code may have read from the input: the tape cursor only moves forward
+		c.havocTpos(s, tp)
+	}()
 	for k := range s.cells {
 		if isRegionKey(k) {
 			delete(s.cells, k)
@@ -94,6 +104,17 @@ func (c *Ctx) havocAll(s *State) {
 	s.gen = genCounter
 	na := c.alloc(s)
 	c.assume(sx("<=", old, na))
+}
+
+// tposMax: fewer than 2^62 input bytes are ever delivered (stated assumption;
+// keeps cursor arithmetic in contracts free of wrap-around).
+const tposMax = "4611686018427387904"
+
+// havocTpos: the ghost input cursor after code that may have read input.
+func (c *Ctx) havocTpos(s *State, old string) {
+	n := c.freshSort("tpos", "Int")
+	c.assume(and(sx("<=", "0", old), sx("<=", old, n), sx("<=", n, tposMax)))
+	s.cells["$tpos"] = Val{S: n}
 }
 
 func (c *Ctx) havocRegion(s *State, name string) {
